@@ -752,8 +752,9 @@ func c08Gen1(r *vf.Rand) c08Case {
 	}
 
 	// rarely one very long segment (the whole path > 2 KiB)
-	if r.Chance(1) {
-		base[r.Intn(nseg)] = strings.Repeat(vf.Pick(r, []string{"ab%2Fc", "x%41", "y-"}), r.Range(400, 600)) + c08RandValue(r)
+	if r.Chance(2) {
+		base[r.Intn(nseg)] = strings.Repeat(vf.Pick(r, []string{"ab%2Fc", "x%41", "y-", "y-", "z"}), r.Range(400, 600)) +
+			vf.Pick(r, []string{"", "%2F", "%2f", "%41"}) + c08RandValue(r)
 	}
 
 	// rules derived from the base path: literal at some positions, generalised at others
